@@ -30,7 +30,7 @@ def scratch_dir(tag):
 
 def write_decoder_config(d, cfg, run_decoder=True, extra_sections=None):
     """Writes ocr.json, the toy LM spec and config.ini into d; returns the ini path."""
-    chars = content.charset(cfg['nchars'], cfg.get('space', False))
+    chars = content.charset(cfg['nchars'], cfg.get('space', False), cfg.get('charset', 'ascii'))
     with open(os.path.join(d, 'ocr.json'), 'w') as f:
         json.dump({'characters': chars, 'line_px_height': 16, 'line_vertical_scale': 1.0,
                    'checkpoint': 'ocr.pt', 'net_name': 'stub'}, f)
@@ -85,7 +85,7 @@ def gen_page(r, pid, max_lines=4):
     lines = []
     for j in range(n):
         lines.append({'frames': r.randint(1, 8), 'seed': r.randrange(1 << 30), 'amb': r.choice([0.2, 0.5, 0.8]),
-                      'coords': 'none' if r.random() < 0.1 else 'std'})
+                      'coords': r.choice(['std', 'std', 'std', 'zero', 'none'])})
     return {'id': pid, 'lines': lines, 'regions': r.choice([1, 1, 2])}
 
 
@@ -169,7 +169,7 @@ def execute(plan):
     log = kernel.EventLog()
     clock = kernel.SimClock(plan['clock']['inc'], plan['clock']['jumps'], log)
     cfg = plan['cfg']
-    chars = content.charset(cfg['nchars'], cfg.get('space', False))
+    chars = content.charset(cfg['nchars'], cfg.get('space', False), cfg.get('charset', 'ascii'))
     d = scratch_dir('dec')
     try:
         with quiet():
